@@ -638,7 +638,12 @@ func c46RunPhase(e *c46Env, remote bool, in []byte, elig []int, prio map[int]int
 		case <-ch:
 			return true
 		case res = <-resc:
-			have = true // returned while workers were still gated: the oracle decides
+			have = true
+			select {
+			case <-ch: // both happened: the worker got through and the call is over
+				return true
+			default:
+			}
 			return false
 		case <-t.C:
 			r.degrade("timeout waiting for " + what)
@@ -811,10 +816,19 @@ func c46RunPhase(e *c46Env, remote bool, in []byte, elig []int, prio map[int]int
 		close(r.abort)
 		wg.Wait()
 	} else {
-		// The bundler returned while workers were still gated (never on the unchanged tree).
-		// Let every one of them get past its I/O before the files are used again.
-		r.early = true
+		// The bundler returned while the schedule was still being played. If a worker has not
+		// reported its outcome by now the return was early (never on the unchanged tree): let
+		// every worker get past its I/O before the files are used again.
 		close(r.abort)
+		for _, i := range elig {
+			if !cached[i] {
+				select {
+				case <-r.rt[i].post:
+				default:
+					r.early = true
+				}
+			}
+		}
 		var wg sync.WaitGroup
 		for _, i := range elig {
 			if !cached[i] && isFifo(i) && !r.rt[i].written.Load() {
